@@ -549,8 +549,13 @@ fn remove_rule(case : &Case, identity : &(Vec<String>, Vec<String>, Vec<String>)
 /* Greedy delta debugging: keep a candidate iff `test` still reports the same signature. */
 pub fn minimize(case : &Case, test : &dyn Fn(&Case) -> bool) -> Case
 {
+    minimize_with_budget(case, test, 600)
+}
+
+pub fn minimize_with_budget(case : &Case, test : &dyn Fn(&Case) -> bool, budget : usize) -> Case
+{
     let mut best = case.clone();
-    let mut budget = 600usize;
+    let mut budget = budget;
     let mut try_candidate = |cand : Case, best : &mut Case, budget : &mut usize| -> bool
     {
         if *budget == 0 { return false; }
